@@ -4,8 +4,7 @@
      CRoute : ClearVirtualHost + FindRouteWithGroups + substitution of the found route's backends +
               what the real findRoute returned (error class, route host, first backend candidate).
    The property predicate is "observed = what the spec model (glob reading, simultaneous $k)
-   yields"; the recorded findings are accepted only inside their trigger classes and only with the
-   faithful impl model's exact output. *)
+   yields".  The three findings once accepted here are fixed in /repo; see the judge. *)
 From Coq Require Import List NArith Bool.
 From Verif Require Import Base.Hex Base.Verdict Base.Text Model.Glob.
 Import ListNotations.
@@ -34,13 +33,6 @@ Definition beq_opt {A} (eq : A -> A -> bool) (a b : option A) : bool :=
 Definition beq_found (a b : N * bytes * list bytes) : bool :=
   let '(i, p, g) := a in let '(j, q, k) := b in (i =? j) && beq_bytes p q && beq_lb g k.
 
-Definition subst_trigger (t : bytes) (gs : list bytes) : option N :=
-  if ref_then_digit (N.of_nat (length gs)) t then Some 3
-  else if rescans t gs then Some 2 else None.
-
-Definition first_some_n (l : list (option N)) : option N :=
-  fold_right (fun o acc => match o with Some k => Some k | None => acc end) None l.
-
 (* does the observation equal the outcome of the model built from (dot, subst)? *)
 Definition agrees (dot : N -> bool) (subst : bytes -> list bytes -> bytes)
            (raw : bytes) (rs : list route_c)
@@ -52,33 +44,23 @@ Definition agrees (dot : N -> bool) (subst : bytes -> list bytes -> bytes)
   && beq_bytes obs_host (match found with Some (_, p, _) => p | None => [] end)
   && beq_bytes obs_first (hd [] bs).
 
+(* All three recorded findings are FIXED (0f43e55, 23c72fc): nothing is excused any more.  The
+   property predicate is "observed = spec"; a recurrence of the old behaviour is a VViolation.
+   When the predicate holds, the model of today's code (impl_) must reproduce the observation too,
+   otherwise VMismatch (impl_ = spec_ is proved, so this cannot happen below 10^9 groups). *)
 Definition judge (c : case) : verdict :=
   match c with
   | CMatch s p obs =>
-      if beq_opt beq_lb obs (match_bytes spec_dot s p) then VOk
-      else if has_lf s && beq_opt beq_lb obs (match_bytes impl_dot s p) then VKnown 1
+      if beq_opt beq_lb obs (match_bytes spec_dot s p)
+      then (if beq_opt beq_lb obs (match_bytes impl_dot s p) then VOk else VMismatch)
       else VViolation
   | CSubst t gs obs =>
-      if beq_bytes obs (spec_subst t gs) then VOk
-      else if beq_bytes obs (impl_subst t gs)
-           then match subst_trigger t gs with Some k => VKnown k | None => VViolation end
+      if beq_bytes obs (spec_subst t gs)
+      then (if beq_bytes obs (impl_subst t gs) then VOk else VMismatch)
       else VViolation
   | CRoute raw rs oc ofound obs_bs ocls ohost ofirst =>
       if negb (beq_bytes oc (clean_host raw)) then VViolation
-      else
-        let ag d s := agrees d s raw rs ofound obs_bs ocls ohost ofirst in
-        if ag spec_dot spec_subst then VOk
-        else
-          let lf := has_lf (clean_host raw) in
-          (* triggers of the substitution findings, on the route the IMPLEMENTATION selected *)
-          let st := match ofound with
-                    | Some (i, _, gs) =>
-                        first_some_n (map (fun b => subst_trigger b gs) (snd (nth (N.to_nat i) rs ([], []))))
-                    | None => None
-                    end in
-          if ag impl_dot spec_subst then (if lf then VKnown 1 else VViolation)
-          else if ag spec_dot impl_subst then (match st with Some k => VKnown k | None => VViolation end)
-          else if ag impl_dot impl_subst then
-            (if lf then VKnown 1 else match st with Some k => VKnown k | None => VViolation end)
-          else VViolation
+      else if agrees spec_dot spec_subst raw rs ofound obs_bs ocls ohost ofirst
+      then (if agrees impl_dot impl_subst raw rs ofound obs_bs ocls ohost ofirst then VOk else VMismatch)
+      else VViolation
   end.
